@@ -140,6 +140,35 @@ func MavenDomain(r *rand.Rand) string {
 	return s
 }
 
+// MavenDotQualifier generates the Maven-Central shape with the qualifier
+// attached by a dot (4.1.0.Final, 1.2.1.SP1, 1.0.0.RC2-SNAPSHOT), and, one
+// time in three, a string of the dash-attached domain to compare it with.
+func MavenDotQualifier(r *rand.Rand) string {
+	if r.Intn(3) == 0 {
+		return MavenDomain(r)
+	}
+	n := 1 + r.Intn(4)
+	p := []string{}
+	for i := 0; i < n; i++ {
+		p = append(p, Pick(r, "0", "0", "1", "1", "2", "3", "10", Num(r)))
+	}
+	s := strings.Join(p, ".") + "." + Pick(r, append(append(append([]string{}, MavenKnownQuals...), MavenUnknownQuals...), "Final", "RELEASE", "GA")...)
+	if r.Intn(2) == 0 {
+		s += Pick(r, "-", "", ".") + Pick(r, "1", "2", "3", "10")
+	}
+	if r.Intn(5) == 0 {
+		s += "-SNAPSHOT"
+	}
+	return s
+}
+
+var mavenDotDomainRe = regexp.MustCompile(`^[0-9]+(\.[0-9]+){0,4}\.[A-Za-z]+([-.]?[0-9]+)?(-SNAPSHOT)?$`)
+
+// MavenInDotDomain accepts the dash-attached domain and the dot-attached shape.
+func MavenInDotDomain(s string) bool {
+	return MavenInDomain(s) || mavenDotDomainRe.MatchString(s)
+}
+
 // MavenLoose generates the full permissive space (any separator, release
 // qualifiers followed by numbers, several qualifiers).
 func MavenLoose(r *rand.Rand) string {
@@ -326,6 +355,9 @@ var extremes = []string{
 	"2147483646", "2147483647", "2147483648", "4294967295", "4294967296",
 	// Between 2^31 and 2^63 with text order unlike numeric order.
 	"3000000000", "10000000000", "20000000000",
+	// Small numbers written with so many leading zeros that they are longer
+	// than the largest ones.
+	"00000000000000000000001", "000000000000000000000002",
 	"9223372036854775806", "9223372036854775807", "9223372036854775808",
 	"18446744073709551614", "18446744073709551615", "18446744073709551616",
 	"99999999999999999999",
